@@ -300,7 +300,7 @@ class C01(E2EProp):
     cone = ["Properties/C01.vo"]
     prop_file = "Properties/C01.v"
     theorems = ["C01_blocks_no_panic_partial", "C01_source_no_panic_partial", "C01_dispatch_table_agrees", "C01_dispatch_domain", "C01_option_tables_agree", "C01_source_constants_agree", "D1_unclosed_table", "D2_mom_fontstack", "D3_user_macro_named_Sm"]
-    partial = ["C01_full (no panic site reachable) is proved for the sub-language of Proofs/FragH.v (XHTML fragment, standalone and multi-file modes: text, Bm/Em/Sm, P, D, Lk, Bd/Ed, headers with pass agreement, Tc) and every world and positive fuel; beyond it the model has a partial primitive at every Go panic site and agrees with the implementation on the exit class of every case (S-e2e)"]
+    partial = ["C01_full (no panic site reachable) is proved for the sub-language of Proofs/FragH.v (XHTML fragment, standalone, multi-file and EPUB modes: text, Bm/Em/Sm, P, D, Lk, Bd/Ed, headers with pass agreement, Tc) and every world and positive fuel; beyond it the model has a partial primitive at every Go panic site and agrees with the implementation on the exit class of every case (S-e2e)"]
     oracle = staticmethod(oracles.c01_oracle)
     assumptions = ["Model/Loop.compile_source is the implementation for the four fragment formats and the XHTML standalone, multi-file and EPUB modes (S-e2e: bytes, diagnostics and exit class)",
                    "failures that are not expression-level panics (memory exhaustion, Go stack limit) are outside the model"]
@@ -322,7 +322,7 @@ class C02(E2EProp):
     cone = ["Properties/C02.vo"]
     prop_file = "Properties/C02.v"
     theorems = ["C02_headers_balanced_partial", "C02_inline_titles_balanced", "C02_toc_writer_balanced", "C02_text_keeps_invariant", "C02_Bm_keeps_invariant", "C02_Em_keeps_invariant", "C02_Sm_keeps_invariant", "C02_P_keeps_invariant", "D4_D5_D6_D16_D17_D18_D19_D21_D22", "D7_known_refuted"]
-    partial = ["C02_full is stated against Spec/Xml.wf_xml; proved: element balance (tag machine of Proofs/Tok.v, weaker than XML well-formedness) of the whole output for the sub-language of Proofs/FragH.v in fragment, standalone and multi-file mode (every file written - index page, one page per part and chapter with header, navigation bars and footer - is balanced; Proofs/Multi.v), of processInlineMacros, of the TOC writer (XHTML, EPUB nav, NCX) and of the EPUB package files (C14); lists, tables, verse, images, cross-references, user macros and the standalone/multi-file/EPUB page skeletons are tied by S-e2e bytes and searched by the strict XML oracle; the list-of-X writer is the known finding D7"]
+    partial = ["C02_full is stated against Spec/Xml.wf_xml; proved: element balance (tag machine of Proofs/Tok.v, weaker than XML well-formedness) of the whole output for the sub-language of Proofs/FragH.v in fragment, standalone, multi-file and EPUB mode (every file written - index page, one page per part and chapter with header, navigation bars and footer, the EPUB package files - is balanced; Proofs/Multi.v), of processInlineMacros, of the TOC writer (XHTML, EPUB nav, NCX) and of the EPUB package files (C14); lists, tables, verse, images, cross-references, user macros and the standalone/multi-file/EPUB page skeletons are tied by S-e2e bytes and searched by the strict XML oracle; the list-of-X writer is the known finding D7"]
     oracle = staticmethod(oracles.c02_oracle)
     assumptions = ["XHTML/EPUB exporter = Model/Xhtml.v through Model/Loop.compile_source (S-e2e bytes of every generated file)"]
 
@@ -994,8 +994,8 @@ class C14(E2EProp):
     id = "C14"
     cone = ["Properties/C14.vo"]
     prop_file = "Properties/C14.v"
-    theorems = ["C14_container_balanced", "C14_nav_balanced", "C14_ncx_balanced", "C14_package_balanced", "C14_examples"]
-    partial = ["C14_tree / C14_zip: stated; proved: the four generated XML files are balanced for every book (tag machine of Proofs/Tok.v); that the manifest lists exactly the files of the tree and the archive order are tied by S-e2e-epub (the bytes of every file) and S-zip on the implementation; the cover page and a user stylesheet are outside the model (implementation-only stream with the manifest/spine oracle)"]
+    theorems = ["C14_container_balanced", "C14_nav_balanced", "C14_ncx_balanced", "C14_package_balanced", "C14_epub_files_balanced_partial", "C14_examples"]
+    partial = ["C14_tree / C14_zip: stated; proved: the four generated XML files are balanced for every book (tag machine of Proofs/Tok.v), and for every document of the sub-language of Proofs/FragH.v compiled as an EPUB no panic is recorded and every file of the book (package files, index page, one page per part and chapter) is balanced (C14_epub_files_balanced_partial); that the manifest lists exactly the files of the tree and the archive order are tied by S-e2e-epub (the bytes of every file) and S-zip on the implementation; the cover page and a user stylesheet are outside the model (implementation-only stream with the manifest/spine oracle)"]
     FAM = [".Pt P", ".Ch C", ".Ch -id c1 D", ".Sh S", ".Im i.png", ".Im img.png cap", "t", ".Tc", ".Ch -nonum N"]
 
     @staticmethod
